@@ -240,18 +240,25 @@ Variable lt : list odecl.
 Hypothesis Hone : one_line_inputs d lt = true.
 Hypothesis Happ : length (d_app d) < 72.
 
-Let P (l : str) : Prop := usage_line_ok d lt l = true.
+(* a line of the usage text: an admissible beginning (80 columns, or a line the developer supplied), then nothing
+   but unbreakable words *)
+Let P (l : str) : Prop := wide_line (usage_base d) (usage_long_words d lt) l.
 
 Lemma P_nil : P [].
-Proof. reflexivity. Qed.
+Proof. apply wide_line_base. reflexivity. Qed.
 
-Lemma P_dev l : In l (dev_lines d) -> P l.
+Lemma usage_base_dev l : In l (dev_lines d) -> usage_base d l = true.
 Proof.
-  intros H. unfold P, usage_line_ok. apply orb_true_iff. right. apply existsb_exists. exists l. split; [exact H | apply seq_eqb_refl].
+  intros H. unfold usage_base. apply orb_true_iff. right. apply existsb_exists. exists l. split; [exact H | apply seq_eqb_refl].
 Qed.
 
-Lemma P_ok L l : incl L (usage_long_words d lt) -> line_ok 80 L l = true -> P l.
-Proof. intros Hi H. unfold P, usage_line_ok. apply orb_true_iff. left. eapply line_ok_incl; eauto. Qed.
+Lemma P_dev l : In l (dev_lines d) -> P l.
+Proof. intros H. apply wide_line_base. now apply usage_base_dev. Qed.
+
+Lemma P_ok L l : incl L (usage_long_words d lt) -> wide_line (fits 80) L l -> P l.
+Proof.
+  intros Hi H. eapply wide_line_mono; [|exact Hi|exact H]. intros b Hb. unfold usage_base. now rewrite Hb.
+Qed.
 
 Lemma P_lines_dev s : incl (lines s) (dev_lines d) -> Forall P (lines s).
 Proof. intros H. apply Forall_forall. intros l Hl. apply P_dev. now apply H. Qed.
@@ -274,21 +281,22 @@ Proof.
   intros Hg Ho Hrest.
   assert (Hd : In o (all_decls d)) by (eapply in_all_decls; eauto).
   destruct (one_line_block o Hd) as [Hh Ht].
-  assert (Hhead : P (block_head o)).
-  { apply P_dev. apply (group_dev_incl g Hg). unfold group_dev_lines.
+  assert (Hheadin : In (block_head o) (dev_lines d)).
+  { apply (group_dev_incl g Hg). unfold group_dev_lines.
     destruct (g_opts g) as [|o1 l1] eqn:E; [destruct Ho|]. rewrite <- E. apply in_or_app. right. apply in_or_app. right.
     apply in_map. now rewrite E. }
   assert (Hincl : incl (long_words_of 40 80 (block_text o)) (usage_long_words d lt)).
   { intros w Hw. unfold usage_long_words. apply in_or_app. right. apply in_flat_map. eauto. }
   unfold block. rewrite <- !app_assoc. cbn [app]. rewrite app_assoc, lines_app_nl. apply Forall_app. split; [|exact Hrest].
   destruct (block_text o) as [|c t] eqn:E; cbn [nonempty].
-  - rewrite app_nil_r, lines_one by exact Hh. now constructor.
+  - rewrite app_nil_r, lines_one by exact Hh. constructor; [now apply P_dev | constructor].
   - rewrite <- E in *. destruct (le_lt_dec (length (block_head o)) 40) as [Hle|Hgt].
-    + eapply Forall_impl; [|apply (format_padded_width_narrow _ _ 40 80 Hh Ht Hle); lia].
+    + eapply Forall_impl; [|apply (format_padded_width_narrow_strict _ _ 40 80 Hh Ht Hle); lia].
       intros l. now apply P_ok.
-    + destruct (format_padded_width_wide _ _ 40 80 Hh Ht Hgt) as (first & more & -> & Hf & Hm); [lia|].
+    + destruct (format_padded_width_wide_strict _ _ 40 80 Hh Ht Hgt) as (first & more & -> & Hf & Hm); [lia|].
       constructor.
-      * destruct Hf as [->|Hf]; [exact Hhead|]. apply (P_ok _ _ Hincl). unfold line_ok. apply orb_true_iff. now right.
+      * eapply wide_line_mono; [|exact Hincl|exact Hf]. intros b Hb. apply seq_eqb_true in Hb. subst b.
+        now apply usage_base_dev.
       * eapply Forall_impl; [|exact Hm]. intros l. now apply P_ok.
 Qed.
 
@@ -322,7 +330,7 @@ Qed.
 Lemma groups_lines_ok gs : incl gs (all_groups d) -> Forall P (lines (concat (map group_usage gs))).
 Proof.
   induction gs as [|g gs IH]; intros Hi.
-  - simpl. repeat constructor.
+  - simpl. constructor; [apply P_nil | constructor].
   - cbn [map concat]. apply group_lines_ok; [apply Hi; now left|]. apply IH. intros x Hx. apply Hi. now right.
 Qed.
 
@@ -334,8 +342,8 @@ Proof.
   assert (Hlen : length (Lit.usage_colon ++ d_app d) = 7 + length (d_app d)) by (rewrite app_length; reflexivity).
   destruct (synopsis_raw d lt) as [|c out] eqn:Eraw.
   - rewrite app_nil_r, lines_one by exact Hhead. constructor; [|constructor].
-    apply (P_ok []); [intros x []|]. unfold line_ok. apply orb_true_iff. left. apply Nat.leb_le. lia.
-  - simpl in Hsyn. eapply Forall_impl; [|apply (format_padded_width_narrow _ _ (8 + length (d_app d)) 80 Hhead Hsyn); lia].
+    apply (P_ok []); [intros x []|]. apply wide_line_base. unfold fits. apply Nat.leb_le. lia.
+  - simpl in Hsyn. eapply Forall_impl; [|apply (format_padded_width_narrow_strict _ _ (8 + length (d_app d)) 80 Hhead Hsyn); lia].
     intros l. apply P_ok. intros w Hw. unfold usage_long_words, synopsis_text. rewrite Eraw. apply in_or_app. now left.
 Qed.
 
@@ -353,28 +361,41 @@ Qed.
 
 End UsageWidth.
 
-(* the form the oracle evaluates: holds for every declaration and every order of the long toggles *)
+(* the form the oracle evaluates (strict rule): holds for every declaration and every order of the long toggles *)
 Theorem usage_check_width d lt : check_width d lt (usage d lt) = true.
 Proof.
   unfold check_width. destruct (one_line_inputs d lt) eqn:H1; [|reflexivity].
   destruct (length (d_app d) <? 72) eqn:H2; [|reflexivity]. apply Nat.ltb_lt in H2. cbn [andb].
-  apply forallb_forall. apply Forall_forall. now apply usage_lines_ok.
+  apply forallb_forall. intros l Hl. pose proof (usage_lines_ok d lt H1 H2) as H. rewrite Forall_forall in H.
+  unfold usage_line_ok. apply wide_line_strip; [now apply H | lia].
 Qed.
 
-(* the readable form, with the hypothesis of known finding K2: when the lines the developer supplies verbatim
+(* the readable strict form, with the hypothesis of known finding K2: when the lines the developer supplies verbatim
    (about text, group descriptions, group names, spelling columns) keep to 80 columns, every line of the usage
-   text does, except for lines that contain an unbreakable word *)
+   text is a beginning of at most 80 columns followed by nothing but unbreakable words (each behind one blank) *)
+Theorem usage_width_strict d lt :
+  one_line_inputs d lt = true -> length (d_app d) < 72 ->
+  (forall l, In l (dev_lines d) -> length l <= 80) ->
+  Forall (wide_line (fits 80) (usage_long_words d lt)) (lines (usage d lt)).
+Proof.
+  intros H1 H2 H3. eapply Forall_impl; [|apply (usage_lines_ok d lt H1 H2)].
+  intros l Hl. eapply wide_line_mono; [|apply incl_refl|exact Hl].
+  intros b Hb. unfold usage_base in Hb. apply orb_true_iff in Hb as [Hb|Hb]; [exact Hb|].
+  apply existsb_exists in Hb as (x & Hx & He). apply seq_eqb_true in He. subst x.
+  unfold fits. apply Nat.leb_le. now apply H3.
+Qed.
+
+(* the weak form follows: every line keeps to 80 columns or contains an unbreakable word *)
 Theorem usage_width d lt :
   one_line_inputs d lt = true -> length (d_app d) < 72 ->
   (forall l, In l (dev_lines d) -> length l <= 80) ->
   Forall (fun l => length l <= 80 \/ exists w, In w (usage_long_words d lt) /\ contains w l = true) (lines (usage d lt)).
 Proof.
-  intros H1 H2 H3. eapply Forall_impl; [|apply (usage_lines_ok d lt H1 H2)].
-  intros l Hl. unfold usage_line_ok, line_ok, has_long in Hl.
-  rewrite !orb_true_iff in Hl. destruct Hl as [[Hl|Hl]|Hl].
+  intros H1 H2 H3. eapply Forall_impl; [|apply (usage_width_strict d lt H1 H2 H3)].
+  intros l Hl. apply wide_line_line_ok in Hl. unfold line_ok, has_long in Hl.
+  rewrite orb_true_iff in Hl. destruct Hl as [Hl|Hl].
   - left. now apply Nat.leb_le.
   - right. now apply existsb_exists.
-  - left. apply existsb_exists in Hl as (x & Hx & He). apply seq_eqb_true in He. subst x. now apply H3.
 Qed.
 
 (* ------------------------------------------------------------------ structure of the option section *)
